@@ -131,6 +131,17 @@ CHECKS = {
         "and invalid coarse-graining maps (valid map + one broken rule) likewise.",
         "Any exception type counts as rejection. The catalogue lists only inputs the statement, the "
         "documentation or the code's own checks declare invalid."),
+    "C16": (
+        "Hypothesis generation of valid index maps by construction; brute-force aggregation oracle on the "
+        "fine grid; inverse and identity-map differential",
+        "Exploration. Valid maps (non-contiguous groups, single-cell groups, dropped cells of several "
+        "environments, random relabelling) on 1-D/2-D/3-D reflecting grids are accepted and the coarse system "
+        "is compared with a brute-force aggregation of the fine grid (volumes, environments, amounts, flags "
+        "= OR, edge set, face counts, centroid distances, no self-loop / duplicate, totals, input untouched); "
+        "uncoarsegrain_trajectory is compared with value/len(group) spreading; simulate(cgmap=identity) is "
+        "compared with the plain Euler run and sample 0 of simulate(cgmap=m) with aggregation spread back.",
+        "Reflecting grids only (documented precondition). Maps whose connected groups share a centroid give "
+        "a zero distance and non-finite trajectories; only sample 0 is meaningful there."),
 }
 
 NOT_BUILT = "check not built yet in this working session (planned; DESIGN.md section 4)"
